@@ -438,7 +438,10 @@ func MutateTokens(r *hx.Rand, toks []string) []string {
 }
 
 var junk = []string{"\"", "'", "`", "\\", "/*", "//", "\x00", "é", "1.5", "0x10", "1e3", "99999999999999999999", "007", "08", "1_0", "\"a\nb\"",
-	"'a'", "`raw`", "\"\\\"q\\\"\"", "#", ".5", "1.", "9223372036854775808", "9223372036854775807", "\xff"}
+	"'a'", "`raw`", "\"\\\"q\\\"\"", "#", ".5", "1.", "9223372036854775808", "9223372036854775807", "\xff",
+	// runes that are neither ASCII nor letters: among them the private use code points that equal the
+	// token numbers of the generated parser (U+E002 = ANY ... U+E00E)
+	"\ue002", "\ue003", "\ue005", "\ue006", "\ue00a", "\ue00b", "\ue00c", "\ue00d", "\ue000", "\u00a7", "\u2028", "\ufffd", "\U0001f600"}
 
 // MutateText inserts lexically interesting junk at a random position or truncates the text.
 func MutateText(r *hx.Rand, s string) string {
